@@ -398,13 +398,15 @@ pub fn run_roundtrip(args: &Args, rep: &mut Report) {
 // C08
 
 /// "Unbounded allocation" is judged relative to the object at hand: a reader may allocate a few times the size of the
-/// input plus the unpacked size of the xorb the input was derived from (8x, never less than 8 MiB, never more than 256 MiB);
+/// input plus the unpacked size of the xorb the input was derived from (8x, never less than 12 MiB - an LZ4 frame whose
+/// descriptor byte is flipped to the largest block size makes the frame decoder allocate 2 x 4 MiB, which is bounded -
+/// never more than 256 MiB);
 /// a length field read from hostile bytes must not push it beyond that.
 static BASE_UNPACKED_LEN: std::sync::atomic::AtomicUsize = std::sync::atomic::AtomicUsize::new(0);
 
 fn alloc_limit(input_len: usize) -> usize {
     let base = BASE_UNPACKED_LEN.load(std::sync::atomic::Ordering::Relaxed);
-    (8 * (input_len + base)).clamp(8 << 20, 256 << 20)
+    (8 * (input_len + base)).clamp(12 << 20, 256 << 20)
 }
 
 #[derive(Debug)]
